@@ -8,6 +8,7 @@ import (
 	"math"
 	"math/rand"
 	"strconv"
+	"strings"
 	"time"
 )
 
@@ -42,6 +43,7 @@ func c19APICheck(w *World, n *Node, class string) {
 		return
 	}
 	totalObjs, totalStrings := 0, 0
+	perKey := map[string]map[string]string{} // what STATS <key> alone reported
 	for _, kk := range kv.A {
 		key := kk.S
 		sv, ok := get("SCAN", key, "LIMIT", "1000000")
@@ -125,6 +127,7 @@ func c19APICheck(w *World, n *Node, class string) {
 			return
 		}
 		m := pairsOf(st.A[0])
+		perKey[key] = m
 		if m["num_objects"] != strconv.Itoa(nobj) || m["num_strings"] != strconv.Itoa(nstr) {
 			w.violate(class+"/api", "STATS %s reports num_objects=%s num_strings=%s, retrievable: %d objects of which %d strings", key, m["num_objects"], m["num_strings"], nobj, nstr)
 			return
@@ -146,6 +149,57 @@ func c19APICheck(w *World, n *Node, class string) {
 				return
 			}
 		}
+	}
+	// the same numbers asked for several collections at once (and one that does not exist), in
+	// both output formats: every access path agrees
+	if len(perKey) > 0 {
+		var keys []string
+		for _, kk := range kv.A {
+			keys = append(keys, kk.S)
+		}
+		args := append(append([]string{"STATS"}, keys...), "no-such-collection")
+		mv, ok := get(args...)
+		if !ok {
+			return
+		}
+		if mv.T != '*' || len(mv.A) != len(keys)+1 {
+			w.violate(class+"/api", "%s: odd reply %s", strings.Join(args, " "), clipStr(mv.String(), 200))
+			return
+		}
+		for i, key := range keys {
+			got := pairsOf(mv.A[i])
+			for _, f := range []string{"num_objects", "num_strings", "num_points", "in_memory_size"} {
+				if got[f] != perKey[key][f] {
+					w.violate(class+"/api", "%s reports %s=%s for %s, STATS %s alone reports %s", strings.Join(args, " "), f, got[f], key, key, perKey[key][f])
+					return
+				}
+			}
+		}
+		if _, ok := get("OUTPUT", "json"); !ok {
+			return
+		}
+		jv, ok := get(args...)
+		if _, ok2 := get("OUTPUT", "resp"); !ok || !ok2 {
+			return
+		}
+		var doc struct {
+			OK    bool                     `json:"ok"`
+			Stats []map[string]interface{} `json:"stats"`
+		}
+		if err := json.Unmarshal([]byte(jv.S), &doc); err != nil || !doc.OK || len(doc.Stats) != len(keys)+1 {
+			w.violate(class+"/api", "%s in JSON: odd reply %s (%v)", strings.Join(args, " "), clipStr(jv.String(), 200), err)
+			return
+		}
+		for i, key := range keys {
+			for _, f := range []string{"num_objects", "num_strings", "num_points", "in_memory_size"} {
+				x, _ := doc.Stats[i][f].(float64)
+				if strconv.FormatFloat(x, 'f', -1, 64) != perKey[key][f] {
+					w.violate(class+"/api", "%s in JSON reports %s=%v for %s, STATS %s alone (RESP) reports %s", strings.Join(args, " "), f, doc.Stats[i][f], key, key, perKey[key][f])
+					return
+				}
+			}
+		}
+		w.stat("c19.multi_key_stats_checked", 1)
 	}
 	sv, ok := get("SERVER")
 	if !ok {
